@@ -50,6 +50,12 @@ pub fn extra_bases() -> Vec<(String, String)> {
             "env {\n    h: Bytes,\n}\nparty A;\npolicy P {\n    hash: h,\n}\npolicy Q {\n    hash: P,\n}\npolicy R {\n    hash: Q,\n}\npolicy L0 = 0xABCDEF1234ABCDEF1234ABCDEF1234ABCDEF1234ABCDEF1234ABCDEF1234;\npolicy L1 {\n    hash: L0,\n}\ntx t(q: Int) {\n    input src {\n        from: A,\n        min_amount: Ada(q),\n    }\n    output {\n        to: R,\n        amount: src - fees,\n    }\n    output {\n        to: L1,\n        amount: Ada(q),\n    }\n    mint {\n        amount: AnyAsset(Q, \"T\", q),\n        redeemer: (),\n    }\n}\n".into(),
         ),
         (
+            // an optional output (its own analysis rule runs beside that of its fields) and the fields of a built-in
+            // type read by name
+            "base_optional_output".into(),
+            "party A;\nparty B;\nasset Token = 0xABCDEF1234ABCDEF1234ABCDEF1234ABCDEF1234ABCDEF1234ABCDEF1234.\"T\";\ntype Seen {\n    ix: Int,\n    tx: Bytes,\n}\ntx t(q: Int, r: UtxoRef) {\n    input src {\n        from: A,\n        min_amount: Ada(q) + fees,\n    }\n    output ? gift {\n        to: B,\n        amount: Ada(q) + Token(1) + min_utxo(gift),\n    }\n    output {\n        to: A,\n        amount: src - Ada(q) - fees,\n        datum: Seen {\n            ix: r.output_index,\n            tx: r.tx_hash,\n        },\n    }\n}\n".into(),
+        ),
+        (
             "base_certs".into(),
             "party A;\ntx t(n: Int) {\n    input i {\n        from: A,\n        min_amount: Ada(n),\n    }\n    output {\n        to: A,\n        amount: i - fees,\n    }\n    cardano::vote_delegation_certificate {\n        drep: 0x12345678,\n        stake: 0x87654321,\n    }\n    cardano::publish {\n        to: A,\n        amount: Ada(n),\n        version: 3,\n        script: 0x4E4D01,\n    }\n}".into(),
         ),
@@ -79,6 +85,21 @@ const KEYWORDS: [&str; 30] = [
     "collateral", "reference", "cardano", "from", "to", "amount", "datum", "min_amount", "redeemer", "ref", "datum_is", "hash", "script",
     "since_slot", "until_slot", "true",
 ];
+
+/// the same chain in a transaction that has nothing but locals and a metadata entry (the number of analysis passes
+/// has been tied to the number of blocks)
+fn bare_chain_source(n: usize) -> String {
+    let mut s = String::from("tx t(q: Int) {\n    locals {\n");
+    for i in 0..n {
+        if i + 1 == n {
+            s.push_str(&format!("        l{i}: q,\n"));
+        } else {
+            s.push_str(&format!("        l{i}: l{} + 1,\n", i + 1));
+        }
+    }
+    s.push_str("    }\n    metadata {\n        1: l0,\n    }\n}\n");
+    s
+}
 
 fn chain_source(n: usize, start_from_param: bool) -> String {
     let mut s = String::from("party P;\ntx t(q: Int) {\n    locals {\n");
@@ -308,7 +329,7 @@ impl Prop for C13 {
     }
     fn rule(&self, tier: Tier) -> String {
         format!(
-            "every source of the C12 enumeration ({}) + over the corpus (examples + 8 feature bases): every identifier token x (every other identifier \
+            "every source of the C12 enumeration ({}) + over the corpus (examples + 9 feature bases): every identifier token x (every other identifier \
              of the program + 10 built-in names); every call arity -> 0 and +1; every line deleted / duplicated; every hex / string / number literal \
              malformed; local chains of every length 1..16 (x2 tails); explicit-state exploration of the facade: every sequence of Workspace::parse / analyze / lower of length <= 4 on one instance, for every program of the corpus as it stands (every call Ok and current templates = those of a straight run on an accepted program; lower = the analysis report on a refused one). Oracle: analyze(p).errors empty => lowering::lower Ok for every tx and \
              Workspace::lower returns Ok without panicking. Non-trivial = the analyzer accepted the program (so lowering was judged); distinct = distinct sources.",
@@ -348,6 +369,7 @@ impl Prop for C13 {
             for p in [false, true] {
                 sink.case(|| json!({"kind": "local-chain", "length": n, "src": chain_source(n, p)}));
             }
+            sink.case(|| json!({"kind": "local-chain-bare", "length": n, "src": bare_chain_source(n)}));
         }
         for (name, src) in corpus(tier) {
             let toks: Vec<String> = tokens::lex(&src).into_iter().map(|t| t.text).collect();
